@@ -134,6 +134,38 @@ def handle_failure(prop, unit, ob, sidecars, timeout_ms):
     return write_replay(prop, unit, ob, payload), reproduced
 
 
+def native_bounded_unit(c, plan, tier, seed):
+    """A contract whose clauses are all 'native:' - a BOUNDED stand-in: the real function is run on generated inputs and
+    the clauses are evaluated natively; never counted as proved."""
+    from pyvc import fuzz
+    t0 = time.time()
+    u = UnitResult("bounded-native:" + c.key, kind="bounded")
+    u.props = list(c.prop)
+    u.model_name = "native"
+    secs = 12 if tier == "quick" else 90
+    r = fuzz.run_fuzz(c.key, plan["sidecars"], seed=seed, n=10 ** 7, seconds=secs)
+    u.seconds = time.time() - t0
+    if "error" in r:
+        u.status, u.detail = "crash", "native search failed: " + r["error"][-400:]
+        return u
+    st = r.get("stats", {})
+    u.evaluations = st.get("evaluated_clauses", 0)
+    u.distinct = st.get("accepted", 0)
+    u.rule = "inputs generated with the real constructors (seed %d, %d s budget), rejected unless the requires hold natively; " \
+             "distinct = accepted inputs" % (seed, secs)
+    u.samples = [{"contract": c.key, "stats": st}]
+    u.detail = "BOUNDED: %d generated inputs accepted, %d clause evaluations in %d s" % (st.get("accepted", 0), u.evaluations, secs)
+    if r.get("found"):
+        u.status = "failed"
+        u.monitor_violations = [{"message": "native clause violated: " + r["found"]["violated"][0][:120], "property": c.prop[0],
+                                 "detail": r["found"]}]
+    else:
+        u.status = "held" if st.get("accepted", 0) > 0 else "crash"
+        if u.status == "crash":
+            u.detail += " | no generated input satisfied the requires"
+    return u
+
+
 def run_fuzz_all(units, plan, tier, seed):
     import concurrent.futures as cf
     from pyvc import fuzz
@@ -212,6 +244,9 @@ def run_property(prop, tier, only=None, write_evidence=True):
         if prop not in c.prop or c.assume_only:
             continue
         if only and not re.search(only, q):
+            continue
+        if c.ghost.get("bounded_only"):
+            units.append(native_bounded_unit(c, plan, tier, seed))
             continue
         u = verify_contract(c, timeout_ms=timeout_ms, defer=True)
         units.append(u)
